@@ -21,7 +21,8 @@ EXPLANATION = (
     'order, else Name (the lookup strategy is classified and the effective table compared with the first-wins table). R14.4 '
     '(table agreement): every dictionary word, in both letter cases and five right contexts, is one token whose type is that '
     'of the first dictionary listing it, or is claimed by an earlier dedicated rule of at least that extent. R14.5: dictionary '
-    'values are token types. Contexts are limited to the delimiter classes listed; classes are sampled over BMP + astral representatives.')
+    'values are token types. R14.3 also: the rule and dictionary lists of a Lexer are bound to fresh lists only (never to a module-level '
+    'object that add_keywords would then modify) and nothing but clear()/set_SQL_REGEX writes the rule list. Contexts are limited to the delimiter classes listed; classes are sampled over BMP + astral representatives.')
 
 CTX = [' ', ',', ';', ')', '']
 
